@@ -24,6 +24,8 @@ DECIDED_R7 = ('Round 7: no 405 is built outside resolve / handler; Route.methods
 DECIDED = DECIDED + ' ' + DECIDED_R7
 DECIDED_R8 = ('Round 8: the values to_route is given are read after the before_request hooks; default_error_handler returns a body, not a response; premise C11.c (validate before mutate).')
 DECIDED = DECIDED + ' ' + DECIDED_R8
+DECIDED_R9 = ('Round 9: the named route is the object the handlers were registered on (premise C11.c); `remove_method` removes every listed name - an unregistered one does not end the loop (e).')
+DECIDED = DECIDED + ' ' + DECIDED_R9
 NOT_DECIDED = 'which route the path selects (C01).'
 ASSUMPTIONS = ['dict and list behave as in CPython', 'C01 selects the route']
 
